@@ -355,14 +355,14 @@ def c15_r2_units(ctx, rule="C15.R2"):
     roles[u] = "U"
     expect_defs(ctx, rule, b, u, roles, {"0": "zero", "Add(U,char::len_utf16(*))": "utf16", "Add(char::len_utf16(*),U)": "utf16"}, ["zero", "utf16"], "UTF-16 column counter")
     # comparisons against col and col + span (widened)
-    cmps = set()
+    cmps = []  # one entry per test (two tests may read alike once a condition is inverted)
     for d in range(len(b.blocks)):
         t = b.blocks[d]["term"]
-        if t["k"] == "switch":
+        if t["k"] == "switch" and not b.blocks[d]["cleanup"]:
             sh = q.shape(b.expr_of_operand(t["discr"]), roles)
             if COL in sh:
-                cmps.add(sh)
-    want_col = [s for s in cmps if q.wild("Le(cast<usize>(%s),U)" % COL, s)]
+                cmps.append(sh)
+    want_col = [s for s in cmps if any(q.wild("Le(cast<usize>(%s),U)" % COL, f) for f in q.test_forms(s))]
     SUM = "Add(from<u64>(%s),from<u64>(%s))" % (COL, SPAN)
     want_end = [s for s in cmps if "U" in s.replace(SUM, "") and q.wild("L?(*%s*" % SUM, s.replace("Lt", "L?").replace("Le", "L?"))]
     gb = gets[0][0]
